@@ -83,6 +83,10 @@ for _method, _args in (('start_application', lambda v: (v, 'mapp', False)), ('te
         CALLS[_method].append((f'strategy_{_label}', _args(_value), INCORRECT_PARAMETERS))
 
 
+WAIT_METHODS = ('start_application', 'stop_application', 'restart_application', 'start_process', 'start_any_process',
+                'stop_process', 'restart_process', 'update_numprocs', 'enable', 'disable', 'restart_sequence')
+
+
 class Updater:
     """stands for SupervisorUpdater (glue to supervisord internals): records what it is asked"""
     def __init__(self):
@@ -122,6 +126,12 @@ def gate(src):
     variant, args, param_fault = src.pick('variant', CALLS[method])
     state = src.pick('state', list(G.ALL))
     master = src.pick('master', ['local', 'peer', 'none'])
+    # wait=True: the answer is a deferred callback for the HTTP server instead of True; the gate, the parameter checks
+    # and the effects of the call itself are the same (the callback is not polled here)
+    if method in WAIT_METHODS and args and args[-1] is False and src.pick_flag('wait'):
+        args = args[:-1] + (True,)
+        variant += '+wait'
+        src.reach('wait')
     core = FC.operational(2, {'synchro_options': 'USER' if method == 'end_sync' and src.pick_flag('user_option')
                               else 'LIST'}, master=1 if master == 'peer' else 0)
     ids = core.ids
@@ -339,12 +349,12 @@ HARNESSES = [
     Harness('H17h', history_gate, quick={}, thorough={}, reach=('gated', 'allowed', 'other-differs-from-its-master'),
             timeout=(120, 300),
             doc='gate on the Master and on the other instance of a real cluster brought to 8 situations by real histories (incl. an instance that lost its Master / is in ELECTION before it)'),
-    Harness('H17', gate, quick={}, thorough={}, reach=('gated', 'allowed', 'bad-parameter'), timeout=(150, 300),
-            doc='method x state x Master/non-Master/no Master x parameter classes'),
+    Harness('H17', gate, quick={}, thorough={}, reach=('gated', 'allowed', 'bad-parameter', 'wait'), timeout=(150, 300),
+            doc='method x state x Master/non-Master/no Master x parameter classes x wait / no wait'),
 ]
 BOUNDS = {'quick': {'methods': len(CALLS), 'states': 9, 'master': ['local', 'peer', 'none'],
                     'parameter_variants': sum(len(v) for v in CALLS.values())}}
-OUTSIDE = ['wait=True (deferred callbacks polled by the Supervisor HTTP server)', 'statistics / log level RPCs',
+OUTSIDE = ['what the deferred callback of wait=True does when the Supervisor HTTP server polls it (the call itself is inside)', 'statistics / log level RPCs',
            'states brought about by a real history (planted; the cluster harness issues RPCs in real histories)']
 ASSUMPTIONS = ['SupervisorUpdater and ServerOptions are recorders (glue to supervisord internals)',
                'the local instance is RUNNING in a stable two-instance cluster']
